@@ -15,12 +15,16 @@ present - region `strippedPositionalIsDeclaredDefaulted`).  Negation witnesses b
 namespace PedVerif.Call
 open PedVerif.Checker PedVerif.Gen.CallTables
 
+/-- **the documented list is the code's list**: the list the specification transcribes (`Spec.documentedKwargsDunders`, which `exempt` reads)
+    equals the list the translator reads from the source - an entry deleted from or added to `FUNCTIONS_THAT_REQUIRE_KWARGS` breaks this -/
+theorem documented_list_is_code_list : requireKwargsDunders = documentedKwargsDunders := by decide
+
 /-- under truthful flags `should_have_kwargs` is exactly "no *args parameter and not exempt" -/
 theorem shk_of_truthful (f : Fn) (t : Truth) (ht : truthful f t = true) :
     f.shouldHaveKwargs = (!hasVarPos f && !exempt f t) := by
   simp only [truthful, Bool.and_eq_true, beq_iff_eq] at ht
   obtain ⟨⟨⟨h1, _⟩, h3⟩, _⟩ := ht
-  simp only [Fn.shouldHaveKwargs, cfg_shk, exempt, h1, h3]
+  simp only [Fn.shouldHaveKwargs, cfg_shk, exempt, h1, h3, ← documented_list_is_code_list]
   cases t.realSetter <;> cases hasVarPos f <;> cases f.startsDunder <;> cases f.endsDunder <;>
     cases requireKwargsDunders.contains f.name <;> rfl
 
@@ -46,7 +50,7 @@ theorem positional_rejected (env : Env) (orc : Nat → Val → Raw) (f : Fn) (t 
   have hne : args ≠ [] := by intro h; simp [h] at hpos
   have hnemp : args.isEmpty = false := by cases args <;> simp_all
   unfold runCall
-  simp only [hnemp, Bool.and_false, Bool.false_eq_true, ↓reduceIte, hs, Bool.true_and]
+  simp only [Fn.initFails, hnemp, Bool.and_false, Bool.false_and, Bool.false_eq_true, ↓reduceIte, hs, Bool.true_and]
   by_cases hawe : (f.argsWithoutSelf args).isEmpty = true
   · -- everything was stripped: exactly one positional and no implicit argument
     simp only [hawe, Bool.not_true, Bool.false_eq_true, ↓reduceIte]
@@ -77,23 +81,38 @@ theorem exempt_callable (env : Env) (orc : Nat → Val → Raw) (f : Fn) (t : Tr
   have := (callWithArgs_iff env orc f args kw body).1 h
   simp [hs] at this
 
-/-- the implicit self / cls never counts as positional: a call whose only positional argument is the implicit one is
-    never rejected by the discipline, whenever the library recognises the callable as a method (`strips`) -/
-theorem self_not_counted (env : Env) (orc : Nat → Val → Raw) (f : Fn) (inst : Val) (kw : List (NameId × Val)) (body : BodyOut)
-    (hstrip : f.strips = true) :
+/-- the implicit self / cls never counts as positional, stated over the harness truth: a call whose only positional argument is the implicit
+    receiver (`t.implicit = 1`) is never rejected by the discipline - outside the region `receiverNotNamedSelf` (the library recognises the
+    receiver by the NAME `self` of the first parameter, by the decorator text `@staticmethod`, or by a second decorator line) -/
+theorem self_not_counted (env : Env) (orc : Nat → Val → Raw) (f : Fn) (t : Truth) (inst : Val) (kw : List (NameId × Val)) (body : BodyOut)
+    (himp : t.implicit = 1) (hreg : regionReceiverNotNamedSelf f t [inst] = false) :
     (runCall env orc f [inst] kw body).caller ≠ .pedCallWithArgs := by
+  have hstrip : f.strips = true := by simpa [regionReceiverNotNamedSelf, himp] using hreg
   intro h
   have := (callWithArgs_iff env orc f [inst] kw body).1 h
   rw [argsWithoutSelf_eq] at this
   simp [hstrip] at this
 
-/-- … and a call without any positional argument never is -/
-theorem keyword_call_not_rejected (env : Env) (orc : Nat → Val → Raw) (f : Fn) (kw : List (NameId × Val)) (body : BodyOut) :
-    (runCall env orc f [] kw body).caller ≠ .pedCallWithArgs := by
+/-- the statement without the region: every keyword call (nothing positional beyond the implicit receiver) of a truthful callable is accepted by
+    the discipline -/
+def KeywordCallAccepted_full : Prop :=
+  ∀ (env : Env) (orc : Nat → Val → Raw) (f : Fn) (t : Truth) (args : List Val) (kw : List (NameId × Val)) (body : BodyOut),
+    truthful f t = true → keywordCall t args = true → (runCall env orc f args kw body).caller ≠ .pedCallWithArgs
+/-- `class K: @pedantic def m(this, a: int) -> int` - a method whose receiver is not called `self` -/
+def witnessThis : Fn :=
+  { name := "m", flags := flagsOfSource "m" "    @pedantic\n    def m(this, a: int) -> int:\n        return a\n", qualDotted := true,
+    params := [{ name := 5, kind := .posOrKw, ann := none, dflt := none }, { name := 1, kind := .posOrKw, ann := some (.cls 2), dflt := none }],
+    selfName := 0, firstIsSelf := false, isBound := false, retAnn := some (.cls 2), genRet := .notGenType, flavour := .sync, mode := .pedantic }
+/-- **region `receiverNotNamedSelf`** (finding of the same name): `obj.m(a=1)` - a keyword call, all flags truthful - is rejected with
+    PedanticCallWithArgsException: the receiver `obj` is counted as a positional argument -/
+theorem receiver_not_named_self_rejected :
+    truthful witnessThis ⟨false, false, true, 1⟩ = true ∧ keywordCall ⟨false, false, true, 1⟩ [.inst 7] = true ∧
+    regionReceiverNotNamedSelf witnessThis ⟨false, false, true, 1⟩ [.inst 7] = true ∧
+    (runCall envW (fun _ _ => .raisedOther) witnessThis [.inst 7] [(1, .lit (.int 1))] (.ret (.lit (.int 1)))).caller = .pedCallWithArgs := by decide
+theorem KeywordCallAccepted_full_is_false : ¬ KeywordCallAccepted_full := by
   intro h
-  have := (callWithArgs_iff env orc f [] kw body).1 h
-  rw [argsWithoutSelf_eq] at this
-  simp at this
+  have w := receiver_not_named_self_rejected
+  exact h envW (fun _ _ => .raisedOther) witnessThis ⟨false, false, true, 1⟩ [.inst 7] [(1, .lit (.int 1))] (.ret (.lit (.int 1))) w.1 w.2.1 w.2.2.2
 
 /-- the documented list is the code's list: exactly the listed operator methods require keywords among dunder names -/
 theorem dunder_requires_kwargs_iff_listed (f : Fn) (hd : f.startsDunder = true ∧ f.endsDunder = true)
